@@ -41,7 +41,7 @@ var allTpls = []int{tplLit, tplVar, tplMeta, tplOrdered, tplMax, tplOverdraftBou
 var profiles = map[string]Profile{
 	// C02: scarce funds, many spenders, every way of naming a source
 	"spend": {Name: "spend", MaxClients: 5, MaxOps: 3, MaxGens: 1, MaxLedgers: 1, WKind: [5]int{12, 3, 2, 2, 0},
-		Tpls:  []int{tplLit, tplVar, tplMeta, tplOrdered, tplMax, tplOverdraftBounded, tplAll, tplBalance, tplTwoSends, tplSplit, tplLit, tplVar, tplMeta, tplOrderedVars, tplOrderedVars},
+		Tpls:  []int{tplLit, tplVar, tplMeta, tplOrdered, tplMax, tplOverdraftBounded, tplAll, tplBalance, tplTwoSends, tplSplit, tplLit, tplVar, tplMeta, tplOrderedVars, tplOrderedVars, tplSaveVar},
 		IKPct: 0, RefPct: 0, DryPct: 3, CancelBlockedPct: 10, IKPool: 2, RefPool: 2, TargetPool: 3, FundMax: 12, AmountMax: 12},
 	// C02: one script text, many bindings -- whatever a request does to the cached, shared program
 	// (or to anything else that outlives it) meets the next requests using the same text
@@ -75,10 +75,10 @@ var profiles = map[string]Profile{
 		IKPct: 80, RefPct: 5, DryPct: 3, IKPool: 2, RefPool: 2, TargetPool: 2, FundMax: 30, AmountMax: 5},
 	// C08 cache clause: few texts, tiny cache, two ledgers sharing the compiler
 	"cache": {Name: "cache", MaxClients: 6, MaxOps: 4, MaxGens: 2, MaxLedgers: 2, WKind: [5]int{10, 6, 1, 1, 0},
-		Tpls:  []int{tplWorld, tplOverdraftUnbounded, tplSetAccountMeta, tplVar, tplLit, tplWorld, tplOverdraftUnbounded, tplOrderedVars, tplArith, tplPortionVar, tplMetaVar, tplRaw},
+		Tpls:  []int{tplWorld, tplOverdraftUnbounded, tplSetAccountMeta, tplVar, tplLit, tplWorld, tplOverdraftUnbounded, tplOrderedVars, tplArith, tplPortionVar, tplMetaVar, tplAssetVar, tplSaveVar, tplRaw},
 		IKPct: 0, RefPct: 0, DryPct: 5, IKPool: 2, RefPool: 2, TargetPool: 3, FundMax: 100, AmountMax: 4},
 	"cache-shared": {Name: "cache-shared", MaxClients: 5, MaxOps: 4, MaxGens: 2, MaxLedgers: 2, WKind: [5]int{14, 2, 0, 1, 0},
-		Tpls: []int{tplOrderedVars, tplVar, tplArith, tplArith, tplPortionVar, tplMetaVar, tplOverdraftUnbounded, tplRaw, tplRaw}, WorldVarPct: 25, BigCache: true,
+		Tpls: []int{tplOrderedVars, tplVar, tplArith, tplArith, tplPortionVar, tplMetaVar, tplAssetVar, tplAssetVar, tplSaveVar, tplOverdraftUnbounded, tplRaw, tplRaw}, WorldVarPct: 25, BigCache: true,
 		IKPool: 2, RefPool: 2, TargetPool: 3, FundMax: 100, AmountMax: 4},
 	// C10
 	"revert": {Name: "revert", MaxClients: 5, MaxOps: 3, MaxGens: 3, MaxLedgers: 1, WKind: [5]int{4, 4, 10, 1, 0},
